@@ -1,4 +1,4 @@
-package main
+package main_test
 
 // C11 — majority heuristic is a sequential pairwise tournament.
 
